@@ -670,4 +670,683 @@ theorem run_append (h : Bytes → HRes) (x : Bytes) : ∀ (k : Nat) (s : S) (K K
           · simp [ha2]
 
 
+/-! ### one event at a time: bookkeeping over the output trace -/
+
+/-- outputs that end an event's stay with the listener: the result handler was called, or the event was rejected -/
+def clears : Out → Bool
+  | .handler _ _ => true
+  | .rejected _ => true
+  | _ => false
+
+def isSent : Out → Bool
+  | .sent _ => true
+  | _ => false
+
+/-- is an event outstanding after the trace, given whether one was before -/
+def pendFrom (b : Bool) : List Out → Bool
+  | [] => b
+  | o :: r => pendFrom (if isSent o then true else if clears o then false else b) r
+
+/-- no event is handed over while another one is outstanding -/
+def okFrom (b : Bool) : List Out → Bool
+  | [] => true
+  | o :: r => (if isSent o then !b else true) && okFrom (if isSent o then true else if clears o then false else b) r
+
+theorem pendFrom_append (b : Bool) (l1 l2 : List Out) : pendFrom b (l1 ++ l2) = pendFrom (pendFrom b l1) l2 := by
+  induction l1 generalizing b with
+  | nil => rfl
+  | cons o l ih => simp [pendFrom, ih]
+
+theorem okFrom_append (b : Bool) (l1 l2 : List Out) :
+    okFrom b (l1 ++ l2) = (okFrom b l1 && okFrom (pendFrom b l1) l2) := by
+  induction l1 generalizing b with
+  | nil => simp [okFrom, pendFrom]
+  | cons o l ih => simp [okFrom, pendFrom, ih, Bool.and_assoc]
+
+def NoSent (l : List Out) : Prop := ∀ o ∈ l, isSent o = false
+
+theorem okFrom_noSent (b : Bool) (l : List Out) (h : NoSent l) : okFrom b l = true := by
+  induction l generalizing b with
+  | nil => rfl
+  | cons o l ih =>
+    have ho : isSent o = false := h o (by simp)
+    simp [okFrom, ho, ih _ (fun x hx => h x (by simp [hx]))]
+
+theorem pendFrom_false_noSent (l : List Out) (h : NoSent l) : pendFrom false l = false := by
+  induction l with
+  | nil => rfl
+  | cons o l ih =>
+    have ho : isSent o = false := h o (by simp)
+    simp only [pendFrom, ho]
+    simpa using ih (fun x hx => h x (by simp [hx]))
+
+theorem pendFrom_clears (b : Bool) (l : List Out) (h : NoSent l) (hc : ∃ o ∈ l, clears o = true) : pendFrom b l = false := by
+  induction l generalizing b with
+  | nil => simp at hc
+  | cons o l ih =>
+    have ho : isSent o = false := h o (by simp)
+    have hl : NoSent l := fun x hx => h x (by simp [hx])
+    simp only [pendFrom, ho]
+    by_cases hco : clears o = true
+    · simp [hco]; exact pendFrom_false_noSent l hl
+    · obtain ⟨x, hx, hcx⟩ := hc
+      simp only [List.mem_cons] at hx
+      rcases hx with rfl | hx
+      · exact absurd hcx hco
+      · simp [hco]; exact ih b hl ⟨x, hx, hcx⟩
+
+/-- what one call body of the parser does to the held event -/
+def StepOK (p : Lst) (r : StepR) : Prop :=
+  r.p.pid = p.pid ∧ NoSent r.outs ∧
+  ((r.p.event = p.event ∧ r.p.ls = p.ls ∧ r.outs = []) ∨
+   (r.p.event = none ∧ (p.event = none ∨ ∃ o ∈ r.outs, clears o = true)))
+
+theorem handled_stepOK (h : Bytes → HRes) (q : Lst) (a : Bool) : StepOK q { handled h q with again := a } := by
+  unfold handled
+  cases h q.result <;>
+    refine ⟨rfl, by intro o ho; simp at ho; rcases ho with rfl | rfl | rfl <;> rfl, Or.inr ⟨rfl, Or.inr ⟨.handler q.event q.result, by simp, rfl⟩⟩⟩
+
+theorem bodyC_stepOK (h : Bytes → HRes) (p q : Lst) (n : Int) (hq : q.pid = p.pid ∧ q.event = p.event ∧ q.ls = p.ls)
+    (hn : (q.result.length : Int) ≤ n) : StepOK p (bodyC h q n) := by
+  have hn' : ¬ n - (q.result.length : Int) < 0 := by omega
+  rw [bodyC_eq_K h q n hn']
+  unfold bodyK
+  have ht : (takeBody q n).pid = p.pid ∧ (takeBody q n).event = p.event ∧ (takeBody q n).ls = p.ls := hq
+  split
+  · have := handled_stepOK h (takeBody q n) (!(takeBody q n).buf.isEmpty)
+    obtain ⟨h1, h2, h3⟩ := this
+    refine ⟨h1.trans ht.1, h2, ?_⟩
+    rcases h3 with ⟨_, _, h33⟩ | ⟨h31, h32⟩
+    · unfold handled at h33; cases hh : h (takeBody q n).result <;> simp [hh] at h33
+    · exact Or.inr ⟨h31, h32.imp (fun he => ht.2.1 ▸ he) id⟩
+  · exact ⟨ht.1, by intro o ho; simp at ho, Or.inl ⟨ht.2.1, ht.2.2, rfl⟩⟩
+
+theorem stepC_stepOK (h : Bytes → HRes) (p : Lst) (hw : Wf p) (hI : p.event.isSome = true → p.ls = .BUSY) :
+    StepOK p (stepC h p) := by
+  have keep : StepOK p { p := p } := ⟨rfl, by intro o ho; simp at ho, Or.inl ⟨rfl, rfl, rfl⟩⟩
+  have evnone : p.ls ≠ .BUSY → p.event = none := by
+    intro hne
+    cases he : p.event with
+    | none => rfl
+    | some e => exact absurd (hI (by simp [he])) hne
+  by_cases hb : p.buf = []
+  · rw [stepC_nil h p hb]; exact keep
+  · cases hl : p.ls
+    · rw [stepC_ready h p hb hl]
+      exact ⟨rfl, by intro o ho; simp at ho; subst ho; rfl, Or.inr ⟨rfl, Or.inl (evnone (by simp [hl]))⟩⟩
+    · rcases Option.eq_none_or_eq_some p.resultlen with hr | ⟨n, hr⟩
+      · rw [stepC_header h p hb hl hr]
+        unfold headerC
+        rcases Option.eq_none_or_eq_some (findNL p.buf) with hf | ⟨pos, hf⟩
+        · simp only [hf]; exact keep
+        · rcases Option.eq_none_or_eq_some (headerLenC (p.buf.take pos)) with hh | ⟨m, hh⟩
+          · simp only [hf, hh]
+            exact ⟨rfl, by intro o ho; simp at ho; rcases ho with rfl | rfl <;> rfl,
+              Or.inr ⟨rfl, Or.inr ⟨.rejected p.event, by simp, rfl⟩⟩⟩
+          · simp only [hf, hh]
+            have hres : p.result = [] := by simpa [Wf, hr] using hw
+            exact bodyC_stepOK h p (afterHeader p pos m) m ⟨rfl, rfl, rfl⟩
+              (by simp [afterHeader, hres, headerLenC_nonneg _ _ hh])
+      · rw [stepC_body h p n hb hl hr]
+        exact bodyC_stepOK h p p n ⟨rfl, rfl, rfl⟩ (by simpa [Wf, hr] using hw)
+    · rw [stepC_ack h p hb hl]
+      unfold ackC
+      have hen := evnone (by simp [hl])
+      split
+      · exact keep
+      · split
+        · exact ⟨rfl, by intro o ho; simp at ho; subst ho; rfl, Or.inr ⟨rfl, Or.inl hen⟩⟩
+        · exact ⟨rfl, by intro o ho; simp at ho; subst ho; rfl, Or.inr ⟨rfl, Or.inl hen⟩⟩
+    · rw [stepC_unknown h p hb hl]
+      exact ⟨rfl, by intro o ho; simp at ho, Or.inl ⟨rfl, rfl, rfl⟩⟩
+
+
+/-- the invariant behind "at most one outstanding event" -/
+structure Inv (s : S) : Prop where
+  wf : Wf s.p
+  busy : s.p.event.isSome = true → s.p.ls = .BUSY ∧ s.p.pid ≠ 0
+  pend : pendFrom false s.outs = true → s.p.event.isSome = true
+  ok : okFrom false s.outs = true
+
+theorem inv_of_stepOK (s : S) (r : StepR) (hi : Inv s) (hs : StepOK s.p r) (hw : Wf r.p) (e : Option Err) :
+    Inv { p := r.p, outs := s.outs ++ r.outs, err := e } := by
+  obtain ⟨hpid, hns, hcase⟩ := hs
+  refine ⟨hw, ?_, ?_, ?_⟩
+  · intro he
+    rcases hcase with ⟨h1, h2, _⟩ | ⟨h1, _⟩
+    · simp only [] at he ⊢
+      rw [h1] at he; rw [h2, hpid]; exact hi.busy he
+    · simp only [] at he; rw [h1] at he; cases he
+  · intro hp
+    simp only [pendFrom_append] at hp
+    rcases hcase with ⟨h1, _, h3⟩ | ⟨h1, h2⟩
+    · rw [h3] at hp; simp only [pendFrom] at hp
+      show r.p.event.isSome = true
+      rw [h1]; exact hi.pend hp
+    · exfalso
+      rcases h2 with h2 | h2
+      · have hb : pendFrom false s.outs = false := by
+          cases hb : pendFrom false s.outs
+          · rfl
+          · have := hi.pend hb; rw [h2] at this; cases this
+        rw [hb, pendFrom_false_noSent _ hns] at hp; cases hp
+      · rw [pendFrom_clears _ _ hns h2] at hp; cases hp
+  · show okFrom false (s.outs ++ r.outs) = true
+    rw [okFrom_append, hi.ok, okFrom_noSent _ _ hns]; rfl
+
+theorem runHL_inv (h : Bytes → HRes) : ∀ (k : Nat) (s : S), s.err = none → Inv s → Inv (runHL h k s)
+  | 0, s, he, hi => by
+    simp only [runHL, raise, guard, he]
+    exact ⟨hi.wf, hi.busy, hi.pend, hi.ok⟩
+  | k + 1, s, he, hi => by
+    rw [runHL_succ h k s he]
+    have hw := stepC_wf h s.p hi.wf
+    have hok := stepC_stepOK h s.p hi.wf (fun hs => (hi.busy hs).1)
+    have hi' := inv_of_stepOK s (stepC h s.p) hi hok hw.2 (stepC h s.p).err
+    split
+    · exact runHL_inv h k _ hw.1 hi'
+    · exact hi'
+
+/-- steps that neither touch the held event / parser state nor emit hand-overs, handler calls or rejections -/
+def Neutral (l : List Out) : Prop := ∀ o ∈ l, isSent o = false ∧ clears o = false
+
+theorem pendFrom_neutral (b : Bool) (l : List Out) (h : Neutral l) : pendFrom b l = b := by
+  induction l generalizing b with
+  | nil => rfl
+  | cons o l ih =>
+    have ho := h o (by simp)
+    simp only [pendFrom, ho.1, ho.2]
+    exact ih b (fun x hx => h x (by simp [hx]))
+
+def SameCore (p q : Lst) : Prop :=
+  q.event = p.event ∧ q.ls = p.ls ∧ q.pid = p.pid ∧ q.resultlen = p.resultlen ∧ q.result = p.result
+
+def NS (s s' : S) : Prop := SameCore s.p s'.p ∧ ∃ l, s'.outs = s.outs ++ l ∧ Neutral l
+
+theorem NS.refl (s : S) : NS s s := ⟨⟨rfl, rfl, rfl, rfl, rfl⟩, [], by simp, by intro o ho; simp at ho⟩
+theorem NS.trans {a b c : S} (h1 : NS a b) (h2 : NS b c) : NS a c := by
+  obtain ⟨⟨a1, a2, a3, a4, a5⟩, l1, o1, n1⟩ := h1
+  obtain ⟨⟨b1, b2, b3, b4, b5⟩, l2, o2, n2⟩ := h2
+  refine ⟨⟨b1.trans a1, b2.trans a2, b3.trans a3, b4.trans a4, b5.trans a5⟩, l1 ++ l2, by rw [o2, o1, List.append_assoc], ?_⟩
+  intro o ho
+  rcases List.mem_append.mp ho with ho | ho
+  · exact n1 o ho
+  · exact n2 o ho
+
+theorem inv_ns {s s' : S} (hi : Inv s) (h : NS s s') : Inv s' := by
+  obtain ⟨⟨a1, a2, a3, a4, a5⟩, l, ho, hn⟩ := h
+  refine ⟨?_, ?_, ?_, ?_⟩
+  · have := hi.wf; unfold Wf at *; rw [a4, a5]; exact this
+  · intro he; rw [a1] at he; rw [a2, a3]; exact hi.busy he
+  · intro hp; rw [ho, pendFrom_append, pendFrom_neutral _ _ hn] at hp; rw [a1]; exact hi.pend hp
+  · rw [ho, okFrom_append, hi.ok]
+    exact okFrom_noSent _ _ (fun o hm => (hn o hm).1)
+
+theorem ns_emit (o : Out) (s : S) (ho : isSent o = false ∧ clears o = false) : NS s (emit o s) := by
+  unfold emit guard
+  split
+  · exact NS.refl s
+  · exact ⟨⟨rfl, rfl, rfl, rfl, rfl⟩, [o], rfl, by intro x hx; simp at hx; subst hx; exact ho⟩
+
+theorem ns_setP (f : Lst → Lst) (s : S) (hf : SameCore s.p (f s.p)) : NS s (setP f s) := by
+  unfold setP guard
+  split
+  · exact NS.refl s
+  · exact ⟨hf, [], by simp, by intro o ho; simp at ho⟩
+
+theorem ns_raise (e : Err) (s : S) : NS s (raise e s) := by
+  unfold raise guard
+  split
+  · exact NS.refl s
+  · exact ⟨⟨rfl, rfl, rfl, rfl, rfl⟩, [], by simp, by intro o ho; simp at ho⟩
+
+theorem ns_err (s : S) (e : Option Err) : NS s { s with err := e } :=
+  ⟨⟨rfl, rfl, rfl, rfl, rfl⟩, [], by simp, by intro o ho; simp at ho⟩
+
+theorem ns_ite_emit (c : Bool) (o : Out) (s : S) (ho : isSent o = false ∧ clears o = false) :
+    NS s (if c = true then s else emit o s) := by
+  split
+  · exact NS.refl s
+  · exact ns_emit o s ho
+
+theorem ns_flush (s : S) : NS s (flush s).1 := by
+  unfold flush
+  split
+  · exact NS.refl s
+  · split
+    · exact NS.refl s
+    · simp only []
+      exact NS.trans (ns_ite_emit _ _ s ⟨rfl, rfl⟩) (ns_setP _ _ ⟨rfl, rfl, rfl, rfl, rfl⟩)
+
+theorem ns_pwrite (c : Bytes) (s : S) : NS s (pwrite c s).1 := by
+  unfold pwrite
+  simp only []
+  split
+  · exact NS.refl s
+  · split
+    · exact NS.refl s
+    · split
+      · exact NS.refl s
+      · have h1 : NS s (setP (fun q => { q with inbuf := pwrite_a2 q.pid q.killing q.stdin q.inClosed q.inbuf c 0 }) s) :=
+          ns_setP _ s ⟨rfl, rfl, rfl, rfl, rfl⟩
+        have h2 := NS.trans h1 (ns_flush _)
+        rcases hf : flush (setP (fun q => { q with inbuf := pwrite_a2 q.pid q.killing q.stdin q.inClosed q.inbuf c 0 }) s) with ⟨s2, r⟩
+        rw [hf] at h2
+        cases r with
+        | none => exact h2
+        | some e =>
+          simp only []
+          split
+          · split
+            · exact h2
+            · exact NS.trans h2 (ns_raise _ _)
+          · exact h2
+
+theorem ns_writeEvent (s : S) : NS s (writeEvent s) := by
+  unfold writeEvent guard
+  split
+  · exact NS.refl s
+  · simp only []
+    split
+    · exact NS.refl s
+    · split
+      · have h2 := ns_flush s
+        rcases hf : flush s with ⟨s1, r⟩
+        rw [hf] at h2
+        cases r with
+        | none => exact h2
+        | some e =>
+          simp only []
+          split
+          · exact NS.trans h2 (NS.trans (ns_setP _ _ ⟨rfl, rfl, rfl, rfl, rfl⟩) (ns_emit _ _ ⟨rfl, rfl⟩))
+          · exact NS.trans h2 (ns_raise _ _)
+      · exact NS.refl s
+
+
+theorem inv_hlsc (h : Bytes → HRes) (s : S) (hi : Inv s) : Inv (hlsc h s) := by
+  unfold hlsc
+  by_cases he : s.err = none
+  · exact runHL_inv h _ s he hi
+  · cases hk : mu s.p + 1 with
+    | zero => omega
+    | succ k =>
+      have : s.err.isSome = true := by cases hs : s.err <;> simp_all
+      simp only [runHL, this, if_true]; exact hi
+
+theorem inv_readEvent (h : Bytes → HRes) (d : Bytes) (s : S) (hi : Inv s) : Inv (readEvent h d s) := by
+  unfold readEvent guard
+  split
+  · exact hi
+  · simp only []
+    split
+    · exact hi
+    · split
+      · exact inv_hlsc h _ (inv_ns hi (NS.trans (ns_setP _ s ⟨rfl, rfl, rfl, rfl, rfl⟩) (ns_emit _ _ ⟨rfl, rfl⟩)))
+      · unfold feed
+        exact inv_hlsc h _ (inv_ns hi (ns_setP _ s ⟨rfl, rfl, rfl, rfl, rfl⟩))
+
+theorem pwrite_ok_pid (c : Bytes) (s : S) (h : (pwrite c s).2 = .ok) : s.p.pid ≠ 0 := by
+  unfold pwrite at h
+  simp only [] at h
+  intro hp
+  simp [pwrite_g0, hp] at h
+
+theorem inv_trySend (ev : Nat) (env : Bytes) (s : S) (hi : Inv s) : Inv (trySend ev env s).1 := by
+  unfold trySend
+  split
+  · exact hi
+  · split
+    · exact hi
+    · split
+      · rename_i hready
+        have hl : s.p.ls = .READY := by simpa using hready
+        have hns := ns_pwrite env s
+        have hpid : (pwrite env s).2 = .ok → s.p.pid ≠ 0 := pwrite_ok_pid env s
+        rcases hw : pwrite env s with ⟨s1, r⟩
+        rw [hw] at hns hpid
+        have hi1 := inv_ns hi hns
+        cases r with
+        | epipe => exact hi1
+        | ok =>
+          simp only []
+          split
+          · exact hi1
+          · rename_i he1
+            have he1' : s1.err = none := by simpa using he1
+            obtain ⟨⟨c1, c2, c3, c4, c5⟩, _⟩ := hns
+            -- the listener held nothing: it was READY
+            have hev : s1.p.event = none := by
+              cases hev : s1.p.event with
+              | none => rfl
+              | some e =>
+                have := (hi1.busy (by simp [hev])).1
+                rw [c2, hl] at this; cases this
+            have hpend : pendFrom false s1.outs = false := by
+              cases hb : pendFrom false s1.outs
+              · rfl
+              · have := hi1.pend hb; rw [hev] at this; cases this
+            simp only [emit, setP, guard, he1', Option.isSome_none, Bool.false_eq_true, if_false]
+            refine ⟨?_, ?_, ?_, ?_⟩
+            · exact hi1.wf
+            · intro _; exact ⟨rfl, by show s1.p.pid ≠ 0; rw [c3]; exact hpid rfl⟩
+            · intro _; rfl
+            · show okFrom false ((s1.outs ++ [Out.lstate s1.p.ls LS.BUSY]) ++ [Out.sent ev]) = true
+              rw [okFrom_append, okFrom_append, hi1.ok, pendFrom_append, hpend]
+              simp [okFrom, pendFrom, isSent, clears]
+      · exact hi
+
+theorem inv_die (h : Bytes → HRes) (d : Bytes) (s : S) (hi : Inv s) : Inv (die h d s) := by
+  unfold die guard
+  split
+  · exact hi
+  · simp only []
+    have h1 : Inv (writeEvent (readEvent h d (setP (fun p => { p with pipeBroken := true }) s))) :=
+      inv_ns (inv_readEvent h d _ (inv_ns hi (ns_setP _ s ⟨rfl, rfl, rfl, rfl, rfl⟩))) (ns_writeEvent _)
+    generalize writeEvent (readEvent h d (setP (fun p => { p with pipeBroken := true }) s)) = t at h1
+    split
+    · exact h1
+    · rename_i het
+      have het' : t.err = none := by simpa using het
+      cases hev : t.p.event with
+      | none =>
+        simp only [setP, guard, het', Option.isSome_none, Bool.false_eq_true, if_false]
+        refine ⟨h1.wf, ?_, ?_, h1.ok⟩
+        · intro he; simp only [] at he; rw [hev] at he; cases he
+        · intro hp; have := h1.pend hp; rw [hev] at this; cases this
+      | some e =>
+        simp only [setP, emit, guard, het', Option.isSome_none, Bool.false_eq_true, if_false]
+        refine ⟨h1.wf, ?_, ?_, ?_⟩
+        · intro he; cases he
+        · intro hp
+          simp only [pendFrom_append] at hp
+          simp [pendFrom, isSent, clears] at hp
+        · show okFrom false (t.outs ++ [Out.rejected (some e)]) = true
+          rw [okFrom_append, h1.ok]; simp [okFrom, isSent]
+
+theorem inv_spawn (pid : Int) (s : S) (hi : Inv s) : Inv (spawn pid s) := by
+  unfold spawn guard
+  split
+  · exact hi
+  · simp only []
+    split
+    · exact hi
+    · rename_i hes hp
+      have hp0 : s.p.pid = 0 := by simpa using hp
+      have hes' : s.err = none := by simpa using hes
+      have hev : s.p.event = none := by
+        cases hev : s.p.event with
+        | none => rfl
+        | some e => exact absurd hp0 (hi.busy (by simp [hev])).2
+      simp only [setP, guard, hes', Option.isSome_none, Bool.false_eq_true, if_false]
+      refine ⟨by simp [Wf, fresh, initialResult], ?_, ?_, hi.ok⟩
+      · intro he; simp [fresh] at he
+      · intro hpd; have := hi.pend hpd; rw [hev] at this; cases this
+
+theorem inv_setPState (ps : PState) (s : S) (hi : Inv s) : Inv (setPState ps s) := by
+  unfold setPState
+  refine inv_ns hi (ns_setP _ s ?_)
+  split
+  · exact ⟨rfl, rfl, rfl, rfl, rfl⟩
+  · cases ps <;> exact ⟨rfl, rfl, rfl, rfl, rfl⟩
+
+theorem inv_applyOp (h : Bytes → HRes) (s : S) (op : Op) (hi : Inv s) : Inv (applyOp h s op) := by
+  cases op <;> simp only [applyOp]
+  · exact inv_readEvent h _ s hi
+  · exact inv_trySend _ _ s hi
+  · exact inv_ns hi (ns_writeEvent s)
+  · exact inv_setPState _ s hi
+  · exact inv_ns hi (ns_setP _ s ⟨rfl, rfl, rfl, rfl, rfl⟩)
+  · exact inv_ns hi (ns_setP _ s ⟨rfl, rfl, rfl, rfl, rfl⟩)
+  · exact inv_die h _ s hi
+  · exact inv_spawn _ s hi
+
+theorem inv_step (h : Bytes → HRes) (s : S) (op : Op) (hi : Inv s) : Inv (step h s op) :=
+  inv_applyOp h _ op (inv_ns hi (ns_err s none))
+
+theorem inv_exec (h : Bytes → HRes) : ∀ (ops : List Op) (s : S), Inv s → Inv (exec h s ops)
+  | [], s, hi => hi
+  | op :: ops, s, hi => inv_exec h ops (step h s op) (inv_step h s op hi)
+
+theorem inv_initial : Inv { p := initial } :=
+  ⟨by simp [Wf, initial], by intro he; simp [initial] at he, by intro hp; simp [pendFrom] at hp, rfl⟩
+
+
+/-! ### whole tokens from a token boundary -/
+
+/-- nothing of an earlier token is pending -/
+def Bnd (p : Lst) : Prop := p.buf = [] ∧ p.resultlen = none ∧ p.result = []
+
+theorem feed_eq (h : Bytes → HRes) (x : Bytes) (s : S) (he : s.err = none) :
+    feed h x s = runHL h (mu (sapp s x).p + 1) (sapp s x) := by
+  have h1 : setP (fun p => { p with buf := p.buf ++ x }) s = sapp s x := by simp [setP, guard, he, sapp, app]
+  unfold feed hlsc; rw [h1]
+
+theorem runHL_one (h : Bytes → HRes) (k : Nat) (s : S) (he : s.err = none) (ha : (stepC h s.p).again = false) :
+    runHL h (k + 1) s = { p := (stepC h s.p).p, outs := s.outs ++ (stepC h s.p).outs, err := (stepC h s.p).err } := by
+  rw [runHL_succ h k s he]; simp [ha]
+
+/-- one call body decides: the common shape of the single-token lemmas -/
+theorem feed_one (h : Bytes → HRes) (x : Bytes) (s : S) (he : s.err = none) (r : StepR)
+    (hr : stepC h (app s.p x) = r) (ha : r.again = false) :
+    feed h x s = { p := r.p, outs := s.outs ++ r.outs, err := r.err } := by
+  rw [feed_eq h x s he]
+  have : (sapp s x).p = app s.p x := rfl
+  rw [runHL_one h _ (sapp s x) he (by rw [this, hr]; exact ha), this, hr]
+  rfl
+
+/-- the listener at a token boundary, with a new listener state and held event -/
+def setLE (p : Lst) (l : LS) (e : Option Nat) : Lst := { p with ls := l, event := e }
+
+theorem setLE_bnd (p : Lst) (l : LS) (e : Option Nat) (hb : Bnd p) : Bnd (setLE p l e) := hb
+
+theorem lst_eta (p : Lst) (hb : Bnd p) (l : LS) (e : Option Nat) :
+    ({ p with ls := l, event := e, buf := [], resultlen := none, result := [] } : Lst) = setLE p l e := by
+  obtain ⟨b1, b2, b3⟩ := hb
+  cases p; simp_all [setLE]
+
+theorem tok_ready_ack (h : Bytes → HRes) (s : S) (he : s.err = none) (hb : Bnd s.p) (hl : s.p.ls = .ACKNOWLEDGED) :
+    feed h READY_FOR_EVENTS_TOKEN s =
+      { p := setLE s.p .READY none, outs := s.outs ++ [.lstate .ACKNOWLEDGED .READY], err := none } := by
+  obtain ⟨b1, b2, b3⟩ := hb
+  have hne : (app s.p READY_FOR_EVENTS_TOKEN).buf ≠ [] := by simp [app, b1, READY_FOR_EVENTS_TOKEN]
+  rw [feed_one h _ s he _ (stepC_ack h _ hne hl) (by simp [ackC, app, b1, READY_FOR_EVENTS_TOKEN])]
+  simp [ackC, app, b1, READY_FOR_EVENTS_TOKEN, hl, ← lst_eta s.p ⟨b1, b2, b3⟩, b2, b3]
+
+/-- READY: any byte at all is a protocol violation -/
+theorem tok_any_ready (h : Bytes → HRes) (x : Bytes) (s : S) (he : s.err = none) (hb : Bnd s.p) (hl : s.p.ls = .READY)
+    (hx : x ≠ []) :
+    feed h x s = { p := setLE s.p .UNKNOWN none, outs := s.outs ++ [.lstate .READY .UNKNOWN], err := none } := by
+  obtain ⟨b1, b2, b3⟩ := hb
+  have hne : (app s.p x).buf ≠ [] := by simp [app, b1, hx]
+  rw [feed_one h _ s he _ (stepC_ready h _ hne hl) rfl]
+  simp [toUnknown, app, hl, ← lst_eta s.p ⟨b1, b2, b3⟩, b2, b3]
+
+/-- UNKNOWN: everything is swallowed -/
+theorem tok_any_unknown (h : Bytes → HRes) (x : Bytes) (s : S) (he : s.err = none) (hb : Bnd s.p) (hl : s.p.ls = .UNKNOWN)
+    (hx : x ≠ []) : feed h x s = s := by
+  obtain ⟨b1, b2, b3⟩ := hb
+  have hne : (app s.p x).buf ≠ [] := by simp [app, b1, hx]
+  rw [feed_one h _ s he _ (stepC_unknown h _ hne hl) rfl]
+  cases s with
+  | mk p outs err =>
+    simp only [] at b1 he ⊢
+    subst he
+    cases p; simp_all [app]
+
+/-- a well-formed result token: a header line without LF that parses to the payload's length -/
+def ValidResult (line payload : Bytes) : Prop :=
+  findNL line = none ∧ headerLenC line = some (payload.length : Int)
+
+theorem findNL_line (line rest : Bytes) (h : findNL line = none) : findNL (line ++ 10 :: rest) = some line.length := by
+  induction line with
+  | nil => simp [findNL]
+  | cons c l ih =>
+    simp only [findNL] at h
+    split at h
+    · cases h
+    · rename_i hc
+      have hl : findNL l = none := by cases hf : findNL l <;> simp_all
+      simp [findNL, hc, ih hl]
+
+theorem header_starts (line : Bytes) (n : Int) (h : headerLenC line = some n) :
+    ∃ r, line = RESULT_TOKEN_START ++ r := by
+  unfold headerLenC at h
+  split at h
+  · rename_i hp
+    obtain ⟨t, ht⟩ := List.isPrefixOf_iff_prefix.mp hp
+    exact ⟨t, ht.symm⟩
+  · cases h
+
+/-- ACKNOWLEDGED: a result token (nobody asked) is a protocol violation -/
+theorem tok_result_ack (h : Bytes → HRes) (line payload : Bytes) (s : S) (he : s.err = none) (hb : Bnd s.p)
+    (hl : s.p.ls = .ACKNOWLEDGED) (hv : ValidResult line payload) :
+    feed h (line ++ 10 :: payload) s =
+      { p := setLE s.p .UNKNOWN none, outs := s.outs ++ [.lstate .ACKNOWLEDGED .UNKNOWN], err := none } := by
+  obtain ⟨b1, b2, b3⟩ := hb
+  obtain ⟨r, hr⟩ := header_starts line _ hv.2
+  have hne : (app s.p (line ++ 10 :: payload)).buf ≠ [] := by simp [app, b1]
+  have hstep : ackC (app s.p (line ++ 10 :: payload)) =
+      { p := toUnknown (app s.p (line ++ 10 :: payload)), outs := [.lstate .ACKNOWLEDGED .UNKNOWN] } := by
+    subst hr
+    simp [ackC, app, b1, RESULT_TOKEN_START, READY_FOR_EVENTS_TOKEN, hl]
+  rw [feed_one h _ s he _ ((stepC_ack h _ hne hl).trans hstep) rfl]
+  simp [toUnknown, app, ← lst_eta s.p ⟨b1, b2, b3⟩, b2, b3]
+
+/-- BUSY: `READY\n` instead of a result is a bad result line: the event is returned -/
+theorem tok_ready_busy (h : Bytes → HRes) (s : S) (he : s.err = none) (hb : Bnd s.p) (hl : s.p.ls = .BUSY) :
+    feed h READY_FOR_EVENTS_TOKEN s =
+      { p := setLE s.p .UNKNOWN none, outs := s.outs ++ [.lstate .BUSY .UNKNOWN, .rejected s.p.event], err := none } := by
+  obtain ⟨b1, b2, b3⟩ := hb
+  have hne : (app s.p READY_FOR_EVENTS_TOKEN).buf ≠ [] := by simp [app, b1, READY_FOR_EVENTS_TOKEN]
+  have hstep : headerC h (app s.p READY_FOR_EVENTS_TOKEN) =
+      { p := toUnknown (app s.p READY_FOR_EVENTS_TOKEN), outs := [.lstate .BUSY .UNKNOWN, .rejected s.p.event] } := by
+    have hf : findNL (app s.p READY_FOR_EVENTS_TOKEN).buf = some 5 := by simp [app, b1, READY_FOR_EVENTS_TOKEN, findNL]
+    have hh : headerLenC ((app s.p READY_FOR_EVENTS_TOKEN).buf.take 5) = none := by
+      simp [app, b1, READY_FOR_EVENTS_TOKEN, headerLenC, RESULT_TOKEN_START]
+    simp only [headerC, hf, hh, app_ls, app_event, hl]
+  rw [feed_one h _ s he _ ((stepC_header h _ hne hl b2).trans hstep) rfl]
+  simp [toUnknown, app, ← lst_eta s.p ⟨b1, b2, b3⟩, b2, b3]
+
+/-- what the documented automaton does with a complete result -/
+def resultLS (h : Bytes → HRes) (payload : Bytes) : LS :=
+  match h payload with
+  | .ok => .ACKNOWLEDGED
+  | .reject => .ACKNOWLEDGED
+  | .error => .UNKNOWN
+
+def resultOuts (h : Bytes → HRes) (ev : Option Nat) (payload : Bytes) : List Out :=
+  match h payload with
+  | .ok => [.handler ev payload, .lstate .BUSY .ACKNOWLEDGED]
+  | .reject => [.handler ev payload, .lstate .BUSY .ACKNOWLEDGED, .rejected ev]
+  | .error => [.handler ev payload, .lstate .BUSY .UNKNOWN, .rejected ev]
+
+/-- BUSY: `RESULT n\n` + n bytes: the result handler gets exactly the payload -/
+theorem tok_result_busy (h : Bytes → HRes) (line payload : Bytes) (s : S) (he : s.err = none) (hb : Bnd s.p)
+    (hl : s.p.ls = .BUSY) (hv : ValidResult line payload) :
+    feed h (line ++ 10 :: payload) s =
+      { p := setLE s.p (resultLS h payload) none, outs := s.outs ++ resultOuts h s.p.event payload, err := none } := by
+  obtain ⟨b1, b2, b3⟩ := hb
+  have hne : (app s.p (line ++ 10 :: payload)).buf ≠ [] := by simp [app, b1]
+  have hf : findNL (app s.p (line ++ 10 :: payload)).buf = some line.length := by
+    simp only [app_buf, b1, List.nil_append]; exact findNL_line line payload hv.1
+  have ht : (app s.p (line ++ 10 :: payload)).buf.take line.length = line := by simp [app, b1]
+  have hd : (app s.p (line ++ 10 :: payload)).buf.drop (line.length + 1) = payload := by
+    simp only [app_buf, b1, List.nil_append]
+    rw [List.drop_append]; simp
+  have hstep : headerC h (app s.p (line ++ 10 :: payload)) =
+      { handled h { afterHeader (app s.p (line ++ 10 :: payload)) line.length (payload.length : Int) with
+                    result := payload, buf := [] } with again := false } := by
+    simp only [headerC, hf, ht, hv.2]
+    have hn : ¬ (payload.length : Int) - ((afterHeader (app s.p (line ++ 10 :: payload)) line.length (payload.length : Int)).result.length : Int) < 0 := by
+      simp [afterHeader, b3]
+    rw [bodyC_eq_K h _ _ hn]
+    have htb : takeBody (afterHeader (app s.p (line ++ 10 :: payload)) line.length (payload.length : Int)) (payload.length : Int) =
+        { afterHeader (app s.p (line ++ 10 :: payload)) line.length (payload.length : Int) with result := payload, buf := [] } := by
+      simp only [takeBody, afterHeader, hd, app_result, b3]
+      simp
+    rw [htb]
+    simp [bodyK]
+  rw [feed_one h _ s he _ ((stepC_header h _ hne hl b2).trans hstep) rfl]
+  unfold handled resultLS resultOuts
+  simp only [afterHeader, app_ls, app_event, hl]
+  cases hh : h payload <;> simp [afterResult, hlsc_a27, app, ← lst_eta s.p ⟨b1, b2, b3⟩, hl]
+
+
+/-! ### what a hand-over attempt adds to the trace -/
+
+theorem setP_err (f : Lst → Lst) (s : S) : (setP f s).err = s.err := by unfold setP guard; split <;> rfl
+theorem emit_err (o : Out) (s : S) : (emit o s).err = s.err := by unfold emit guard; split <;> rfl
+
+theorem ite_emit_err (c : Bool) (o : Out) (s : S) : (if c = true then s else emit o s).err = s.err := by
+  split
+  · rfl
+  · exact emit_err o s
+
+theorem flush_err (s : S) : (flush s).1.err = s.err ∧ ((flush s).2 = none ∨ (flush s).2 = some 32 ∨ (flush s).2 = some 11) := by
+  unfold flush
+  split
+  · exact ⟨rfl, Or.inr (Or.inl rfl)⟩
+  · split
+    · exact ⟨rfl, Or.inr (Or.inr rfl)⟩
+    · simp only []
+      refine ⟨?_, Or.inl trivial⟩
+      rw [setP_err]
+      exact ite_emit_err _ _ s
+
+theorem pwrite_err (c : Bytes) (s : S) (he : s.err = none) : (pwrite c s).1.err = none := by
+  unfold pwrite
+  simp only []
+  split
+  · exact he
+  · split
+    · exact he
+    · split
+      · exact he
+      · have hs1 : (setP (fun q => { q with inbuf := pwrite_a2 q.pid q.killing q.stdin q.inClosed q.inbuf c 0 }) s).err = none := by
+          rw [setP_err]; exact he
+        have hf := flush_err (setP (fun q => { q with inbuf := pwrite_a2 q.pid q.killing q.stdin q.inClosed q.inbuf c 0 }) s)
+        rcases hfl : flush (setP (fun q => { q with inbuf := pwrite_a2 q.pid q.killing q.stdin q.inClosed q.inbuf c 0 }) s) with ⟨s2, r⟩
+        rw [hfl] at hf
+        simp only [] at hf
+        have hs2 : s2.err = none := by rw [hf.1]; exact hs1
+        rcases hf.2 with h | h | h
+        · subst h; exact hs2
+        · cases h; simp [pwrite_g3, hs2]
+        · cases h; simp [pwrite_g3, hs2]
+
+/-- what a hand-over attempt adds to the trace -/
+theorem trySend_trace (ev : Nat) (env : Bytes) (s : S) (he : s.err = none) :
+    (trySend ev env s).1.err = none ∧
+    ∃ l, (trySend ev env s).1.outs = s.outs ++ l ∧ (∀ o ∈ l, clears o = false) ∧
+      l.filter isSent = (if (trySend ev env s).2 = .sent then [.sent ev] else []) := by
+  unfold trySend
+  have hes : s.err.isSome = false := by simp [he]
+  simp only [hes, Bool.false_eq_true, if_false]
+  split
+  · exact ⟨he, [], by simp, by simp, by simp⟩
+  · split
+    · have hns := ns_pwrite env s
+      have herr := pwrite_err env s he
+      rcases hw : pwrite env s with ⟨s1, r⟩
+      rw [hw] at hns herr
+      simp only [] at herr
+      obtain ⟨_, l1, ho1, hn1⟩ := hns
+      have hf1 : l1.filter isSent = [] := by
+        rw [List.filter_eq_nil_iff]; intro o ho; simp [(hn1 o ho).1]
+      cases r with
+      | epipe =>
+        exact ⟨herr, l1, ho1, fun o ho => (hn1 o ho).2, by simp [hf1]⟩
+      | ok =>
+        simp only [herr, Option.isSome_none, Bool.false_eq_true, if_false]
+        refine ⟨by simp [emit, setP, guard, herr], l1 ++ [.lstate s1.p.ls .BUSY, .sent ev], ?_, ?_, ?_⟩
+        · have ho1' : s1.outs = s.outs ++ l1 := ho1
+          simp [emit, setP, guard, herr, ho1']
+        · intro o ho
+          rcases List.mem_append.mp ho with ho | ho
+          · exact (hn1 o ho).2
+          · simp at ho; rcases ho with rfl | rfl <;> rfl
+        · simp [List.filter_append, hf1, isSent]
+    · exact ⟨he, [], by simp, by simp, by simp⟩
+
+
 end Sv.Listener
